@@ -191,14 +191,16 @@ func (s *Server) readListener(l net.Listener, am *allocation.Manager) {
 				tlsConnectionState = &cs
 			}
 
-			s.readLoop(NewSTUNConn(conn), am, tlsConnectionState)
+			stunConn := NewSTUNConn(conn)
+			s.readLoop(stunConn, am, tlsConnectionState)
 
-			// Delete allocation
-			am.DeleteAllocation(&allocation.FiveTuple{
+			// Delete the allocation made over this connection. (The 5-tuple may
+			// belong to a new connection of the client by now.)
+			am.DeleteAllocationOnSocket(&allocation.FiveTuple{
 				Protocol: allocation.UDP, // fixed UDP
 				SrcAddr:  conn.RemoteAddr(),
 				DstAddr:  conn.LocalAddr(),
-			})
+			}, stunConn)
 
 			if err := conn.Close(); err != nil && !errors.Is(err, net.ErrClosed) {
 				s.log.Errorf("Failed to close conn: %s", err)
